@@ -42,7 +42,9 @@ def GoodJwt : Prop :=
 instance : Decidable GoodJwt := by unfold GoodJwt; infer_instance
 
 /-- C03: nonce and PKCE verifier are at least 32 bytes read from crypto/rand (the state is a v4 UUID from google/uuid) -/
-def GoodRandom : Prop := randomFromCryptoRand = true ∧ 32 ≤ nonceBytes ∧ 32 ≤ verifierBytes
+def GoodRandom : Prop := randomFromCryptoRand = true ∧ 32 ≤ nonceBytes ∧ 32 ≤ verifierBytes ∧
+  -- the state is a version-4 UUID (122 bits from crypto/rand), nothing time- or host-derived
+  stateSources = ["uuid.NewString()"]
 instance : Decidable GoodRandom := by unfold GoodRandom; infer_instance
 
 /-- C15 / C17 / C18: the remembered request URI is capped (the proofs need ≥ 1; C18's main-cookie bound needs ≤ 1024) -/
